@@ -300,3 +300,67 @@ Proof.
   split; [reflexivity|]. split; [reflexivity|]. split; [reflexivity|]. split; [reflexivity|].
   split; eexists; (split; [vm_compute; reflexivity|]); repeat split; reflexivity.
 Qed.
+
+(* ======================================================================================================
+   Round 2: data without a depth table, text values, re-saving a hole, copies.                              *)
+From GV Require Import Model.ConcatDtype Proofs.ConcatDtypeProofs.
+
+(* read-your-write for object-associated data (hole.add_data({name: {values, association: OBJECT}})): PARTIAL (no rename) *)
+Theorem C04_api_read_your_write_obj_partial : forall ops s h name did vals s',
+  forallb (fun op => negb (is_rename op)) ops = true -> reaches ops s ->
+  api_step s (AddObjData h name did vals) = AOk s' -> api_read s' h did = Some vals.
+Proof.
+  intros ops s h name did vals s' Hq R H. pose proof (reaches_WF ops s Hq R) as W.
+  assert (Ho : outcome (api_step s (AddObjData h name did vals)) = Some s') by (rewrite H; reflexivity).
+  exact (proj2 (proj2 (proj2 (touch_add_obj s h name did vals s' W Ho))) H).
+Qed.
+Print Assumptions C04_api_read_your_write_obj_partial.
+
+(* read-your-write for text values (no padding): PARTIAL (no rename) *)
+Theorem C04_api_read_your_write_text_partial : forall ops s h d vals s',
+  forallb (fun op => negb (is_rename op)) ops = true -> reaches ops s ->
+  api_step s (SetText h d vals) = AOk s' -> api_read s' h d = Some vals.
+Proof.
+  intros ops s h d vals s' Hq R H. pose proof (reaches_WF ops s Hq R) as W.
+  assert (Ho : outcome (api_step s (SetText h d vals)) = Some s') by (rewrite H; reflexivity).
+  exact (proj2 (proj2 (proj2 (touch_set_text s h d vals s' W Ho))) H).
+Qed.
+Print Assumptions C04_api_read_your_write_text_partial.
+
+(* re-saving a stored hole and group.remove_children(non-child) keep the object id list; the latter changes nothing at all *)
+Theorem C04_resave_keeps_object_ids : forall ops s h s',
+  forallb (fun op => negb (is_rename op)) ops = true -> reaches ops s ->
+  outcome (api_step s (SaveHole h)) = Some s' -> objids s' = objids s /\ recs s' = recs s.
+Proof.
+  intros ops s h s' Hq R Ho. split.
+  - exact (proj2 (proj2 (touch_save_hole s h s' (reaches_WF ops s Hq R) Ho))).
+  - simpl in Ho. destruct (live_hole s h); simpl in Ho; [|discriminate]. apply soft_or_hard_out in Ho.
+    match type of Ho with match lput s ?b with _ => _ end = _ => destruct (lput s b) as [s2|e] eqn:E; [|discriminate] end.
+    rewrite (lput_recs _ _ _ Ho), (lput_recs _ _ _ E). reflexivity.
+Qed.
+Print Assumptions C04_resave_keeps_object_ids.
+
+Theorem C04_non_child_removal_ignored : forall s h d s', outcome (api_step s (RemoveViaGroup h d)) = Some s' -> s' = s.
+Proof.
+  intros s h d s' Ho. simpl in Ho. destruct (live_hole s h); simpl in Ho; [|discriminate].
+  destruct (negb (owns s h d)); [discriminate|]. inversion Ho. reflexivity.
+Qed.
+Print Assumptions C04_non_child_removal_ignored.
+
+(* appending to a concatenated array never changes a stored value: np.hstack promotes to the join of the two element types
+   (int32 / float / <Uw text); every element of either array denotes the same value afterwards and fits the new type *)
+Theorem C04_append_widens : forall x y,
+  same_family (fst x) (fst y) = true -> forallb (fits (fst x)) (snd x) = true -> forallb (fits (fst y)) (snd y) = true ->
+  ConcatDtype.decode (hstack x y) = ConcatDtype.decode x ++ ConcatDtype.decode y
+  /\ forallb (fits (fst (hstack x y))) (snd (hstack x y)) = true.
+Proof. exact hstack_decodes. Qed.
+Print Assumptions C04_append_widens.
+
+(* ... whereas casting the result back to the element type of the array that was there first does (2.5 -> 2, 'sandstone' -> 'san') *)
+Theorem C04_append_keep_first_refuted :
+  ~ (forall x y, same_family (fst x) (fst y) = true -> forallb (fits (fst x)) (snd x) = true -> forallb (fits (fst y)) (snd y) = true ->
+       ConcatDtype.decode (hstack_keep_first x y) = ConcatDtype.decode x ++ ConcatDtype.decode y).
+Proof.
+  intros H. destruct keep_first_loses as (x & y & F & Hx & Hy & Hne). exact (Hne (H x y F Hx Hy)).
+Qed.
+Print Assumptions C04_append_keep_first_refuted.
